@@ -4,11 +4,15 @@
 package c14
 
 import (
+	"bufio"
 	"encoding/json"
 	"fmt"
 	"net"
 	"os"
+	"os/exec"
 	"strings"
+	"syscall"
+	"time"
 
 	"github.com/emitter-io/emitter/internal/security"
 	"github.com/emitter-io/emitter/internal/verifx/engine/brokerx"
@@ -19,7 +23,7 @@ import (
 )
 
 func init() {
-	core.Register(&core.Check{ID: "C14", Level: "model_checking", Run: run, Replay: replay})
+	core.Register(&core.Check{ID: "C14", Level: "model_checking", Run: run, Replay: replay, Worker: worker})
 }
 
 var fullAlphabet = []string{"ban", "unban", "use", "restart", "crash", "useB2", "sync"}
@@ -262,21 +266,35 @@ func (in *inst) Key() string { return strings.Join(in.hist, ",") } // no merging
 
 func (in *inst) Close() {}
 
-func search(c *core.Ctx, name string, ops []string, depth int) {
-	n := core.NumWorkers()
-	envs := make([]*wenv, n)
-	spec := &xstate.Spec{Name: name, Alphabet: ops, Depth: depth, Workers: n, Deadline: c.Deadline,
+var procEnv *wenv
+
+func alphabetOf(name string) []string {
+	switch name {
+	case "toggle":
+		return toggleAlphabet
+	case "restart":
+		return restartAlphabet
+	}
+	return fullAlphabet
+}
+
+func specFor(name string, ops []string, depth int, deadline time.Time) *xstate.Spec {
+	return &xstate.Spec{Name: name, Alphabet: ops, Depth: depth, Deadline: deadline,
 		New: func(w int) xstate.Instance {
-			if envs[w] == nil {
-				envs[w] = newWenv()
+			if procEnv == nil {
+				procEnv = newWenv()
 			}
-			return newInst(envs[w], ops)
+			return newInst(procEnv, ops)
 		}}
-	res := xstate.Run(spec)
-	for _, e := range envs {
-		if e != nil {
-			e.close()
-		}
+}
+
+func search(c *core.Ctx, name string, ops []string, depth int) {
+	spec := specFor(name, ops, depth, c.Deadline)
+	// restarts and abandoned brokers cannot be released (routers, caches, pollers stay referenced):
+	// the expansion runs in worker processes that are replaced after a few dozen requests
+	res, err := xstate.RunProcs(spec, xstate.ProcOpts{CheckID: "C14", Tier: c.Tier, Args: []string{"xstate", name, fmt.Sprint(depth)}, Procs: core.NumWorkers(), Recycle: 60, Deadline: c.Deadline})
+	if err != nil {
+		core.HarnessFailure("C14 %s: %v", name, err)
 	}
 	c.Add("states", int64(res.States))
 	c.Add("transitions", res.Transitions)
@@ -295,7 +313,133 @@ func search(c *core.Ctx, name string, ops []string, depth int) {
 	}
 }
 
+// ---- real process kills ---------------------------------------------------------------------
+//
+// A child process runs a broker on a state directory, executes a script of ban/unban requests
+// (real emitter/keyban/ requests) and prints "ACK i" after each acknowledged one; the parent reads
+// the acks and delivers SIGKILL right after the k-th. A second child then opens a broker on the same
+// directory and reports whether the key is accepted. Expected: the state of the last acknowledged
+// request (a request in flight may or may not have taken effect).
+
+func worker(c *core.Ctx, args []string) {
+	if len(args) == 3 && args[0] == "xstate" {
+		var depth int
+		fmt.Sscan(args[2], &depth)
+		xstate.Serve(specFor(args[1], alphabetOf(args[1]), depth, time.Time{}))
+		if procEnv != nil {
+			procEnv.close()
+		}
+		return
+	}
+	if len(args) < 3 {
+		return
+	}
+	dir, key := args[1], args[2]
+	env := brokerx.MustNew(brokerx.Options{Node: 1, ClusterDir: dir})
+	cl := session.NewClient("U", func(cn net.Conn) { env.Svc.VerifAttach(cn) })
+	cl.Connect(session.ConnectOpts{ClientID: "u"})
+	switch args[0] {
+	case "kill-child":
+		if key == "-" { // mint the key and tell the parent
+			key = env.MustKey("a/", security.AllowRead|security.AllowWrite)
+			fmt.Printf("KEY %s\n", key)
+		}
+		for i, op := range strings.Split(args[3], ",") {
+			resp, ok := cl.Request("keyban", map[string]interface{}{"secret": env.Master, "target": key, "banned": op == "ban"})
+			if !ok || resp.Topic != "emitter/keyban/" {
+				fmt.Printf("FAILED %d\n", i)
+				os.Stdout.Sync()
+				os.Exit(3)
+			}
+			fmt.Printf("ACK %d\n", i)
+			os.Stdout.Sync()
+			// wait for the parent's go-ahead (or its SIGKILL)
+			var b [1]byte
+			if _, err := os.Stdin.Read(b[:]); err != nil {
+				select {}
+			}
+		}
+		select {} // never exits by itself: the parent kills it
+	case "kill-verify":
+		acc, ok := tryUse(cl, key, "a/")
+		fmt.Printf("USE accepted=%v ok=%v\n", acc, ok)
+		os.Stdout.Sync()
+		os.Exit(0)
+	}
+}
+
+type killCase struct {
+	Part   string   `json:"part"`
+	Script []string `json:"script"`
+	KillAt int      `json:"kill_after_ack"` // index of the last acknowledged request
+}
+
+func runKill(c *core.Ctx, kc killCase) {
+	c.Add("kill_cases", 1)
+	dir, _ := os.MkdirTemp("", "c14k-*")
+	defer os.RemoveAll(dir)
+	cmd := exec.Command(os.Args[0], "worker", "C14", c.Tier, "kill-child", dir, "-", strings.Join(kc.Script, ","))
+	stdin, _ := cmd.StdinPipe()
+	stdout, _ := cmd.StdoutPipe()
+	cmd.Stderr = nil
+	if err := cmd.Start(); err != nil {
+		core.HarnessFailure("C14 kill child: %v", err)
+	}
+	rd := bufio.NewReader(stdout)
+	key := ""
+	acked := -1
+	deadline := time.AfterFunc(120*time.Second, func() { cmd.Process.Kill() })
+	for acked < kc.KillAt {
+		line, err := rd.ReadString('\n')
+		if err != nil {
+			break
+		}
+		line = strings.TrimSpace(line)
+		switch {
+		case strings.HasPrefix(line, "KEY "):
+			key = line[4:]
+		case strings.HasPrefix(line, "ACK "):
+			fmt.Sscanf(line, "ACK %d", &acked)
+			if acked < kc.KillAt {
+				stdin.Write([]byte("g"))
+			}
+		}
+	}
+	cmd.Process.Signal(syscall.SIGKILL)
+	cmd.Wait()
+	deadline.Stop()
+	if acked != kc.KillAt || key == "" {
+		core.HarnessFailure("C14 kill child did not reach ack %d (got %d)", kc.KillAt, acked)
+	}
+	out, err := exec.Command(os.Args[0], "worker", "C14", c.Tier, "kill-verify", dir, key).Output()
+	if err != nil || !strings.Contains(string(out), "ok=true") {
+		c.Violate("reopen-failed:after-kill", fmt.Sprintf("the broker did not come up / answer on the state directory of a killed broker: %v %s", err, out), kc)
+		return
+	}
+	accepted := strings.Contains(string(out), "accepted=true")
+	banned := kc.Script[kc.KillAt] == "ban"
+	if banned && accepted {
+		c.Violate("lost-after-kill:"+strings.Join(kc.Script[:kc.KillAt+1], ","), "an acknowledged ban is not in force after the broker was killed and restarted on the same directory", kc)
+	} else if !banned && !accepted {
+		c.Violate("unban-lost-after-kill:"+strings.Join(kc.Script[:kc.KillAt+1], ","), "an acknowledged unban is not in force after the broker was killed and restarted", kc)
+	}
+}
+
+func killPart(c *core.Ctx) {
+	scripts := [][]string{{"ban"}, {"ban", "unban"}, {"ban", "unban", "ban"}}
+	if !c.Quick() {
+		scripts = append(scripts, []string{"ban", "ban", "unban", "unban", "ban"}, []string{"unban", "ban", "unban"})
+	}
+	for _, sc := range scripts {
+		for k := range sc {
+			runKill(c, killCase{Part: "kill", Script: sc, KillAt: k})
+		}
+	}
+	c.Sample(killCase{Part: "kill", Script: []string{"ban", "unban", "ban"}, KillAt: 2})
+}
+
 func run(c *core.Ctx) {
+	killPart(c)
 	if c.Quick() {
 		search(c, "toggle", toggleAlphabet, 6)
 		search(c, "restart", restartAlphabet, 4)
@@ -305,12 +449,20 @@ func run(c *core.Ctx) {
 		search(c, "restart", restartAlphabet, 6)
 		search(c, "full", fullAlphabet, 5)
 	}
+	c.Add("states", c.Count("kill_cases"))
+	c.Add("transitions", c.Count("kill_cases"))
+	c.Add("traces_validated_against_impl", c.Count("kill_cases"))
 	c.Assume("the 60 s read-cache TTL and the 6 h tombstone TTL never elapse inside a run")
 	c.Assume("'crash' = a second Service opened on the state directory while the first is abandoned un-closed (buntdb writes each commit with an immediate write(2)); power loss is out of scope")
 	c.Assume("gossip to the second broker is delivered as the exact one-operation payloads the first broker broadcast, in order")
 }
 
 func replay(c *core.Ctx, raw json.RawMessage) {
+	var pk killCase
+	if json.Unmarshal(raw, &pk); pk.Part == "kill" {
+		runKill(c, pk)
+		return
+	}
 	var cs struct {
 		Alphabet string `json:"alphabet"`
 		Ops      []int  `json:"ops"`
